@@ -2,6 +2,7 @@
    the extracted model, prints one line per case: "OK <id>" or "MISMATCH <id> <what> <model>". *)
 open Vx
 open C13Model
+open C13ModelExt
 
 let parse_wop (s : string) : wop =
   match split_on ':' s with
@@ -15,19 +16,49 @@ let parse_wop (s : string) : wop =
   | ["l"] -> WFlush
   | _ -> failwith ("bad wop " ^ s)
 
-let parse_rop (s : string) : rop =
+let parse_rop (s : string) : xrop =
   match split_on ':' s with
-  | ["b"; w] -> RBits (n_of_int (int_of_string w))
-  | ["f"] -> RFlag
-  | ["u"] -> RUe
-  | ["s"] -> RSe
-  | ["y"; k] -> RBytes (nat_of_int (int_of_string k))
-  | ["m"] -> RMore
+  | ["b"; w] -> XBase (RBits (n_of_int (int_of_string w)))
+  | ["f"] -> XBase RFlag
+  | ["u"] -> XBase RUe
+  | ["s"] -> XBase RSe
+  | ["y"; k] -> XBase (RBytes (nat_of_int (int_of_string k)))
+  | ["m"] -> XBase RMore
+  | ["t"] -> XTrail
   | _ -> failwith ("bad rop " ^ s)
+
+(* ops of the FixedSliceWriter ("F" lines) and of the ByteWriter ("B" lines) *)
+let parse_fop (s : string) : fop =
+  match split_on ':' s with
+  | ["b"; v; w] -> FBits (n_of_hex v, n_of_int (int_of_string w))
+  | ["f"; v] -> FFlag (v = "1")
+  | ["l"] -> FFlush
+  | ["u"; k; v] -> FU (nat_of_int (int_of_string k), n_of_hex v)
+  | ["u3"; v] -> FU24 (n_of_hex v)
+  | ["u6"; v] -> FU48 (n_of_hex v)
+  | ["i"; k; z] -> FI (nat_of_int (int_of_string k), z_of_hex z)
+  | ["z"; k] -> FZero (nat_of_int (int_of_string k))
+  | ["y"; h] -> FBytes (bytes_of_hex h)
+  | ["m"] -> FMatrix
+  | _ -> failwith ("bad fop " ^ s)
+
+let parse_bop (s : string) : bop =
+  match split_on ':' s with
+  | ["u"; k; v] -> BU (nat_of_int (int_of_string k), n_of_hex v)
+  | ["u6"; v] -> BU48 (n_of_hex v)
+  | ["y"; h] -> BSlice (bytes_of_hex h)
+  | _ -> failwith ("bad bop " ^ s)
 
 let parse_list f s = if s = "-" then [] else L.map f (split_on ';' s)
 
-let rval_string (v : rval) : string =
+let rec xrval_string (v : xrval) : string =
+  match v with
+  | XV v -> rval_string v
+  | XT TNil -> "T0"
+  | XT TNoOne -> "T1"
+  | XT TSecondOne -> "T2"
+  | XFuel -> "FUEL"
+and rval_string (v : rval) : string =
   match v with
   | VN n -> hex_of_n n
   | VB b -> if b then "1" else "0"
@@ -64,19 +95,17 @@ let () =
         let rops = parse_list parse_rop rops in
         let esc = (mode = "E") in
         let step s o =
-          if esc then rstep s o
+          if esc then xrstep s o
           else (match o with
-              | RBits w -> let (v, s') = read_plain s w in (VN v, s')
-              | RSe -> failwith "plain reader op"
-              | RBytes k -> (* used as ReadSigned(k) in plain mode *)
-                let (z, s') = read_signed_plain s (n_of_int (int_of_nat k)) in (VZ z, s')
-              | RFlag -> let (v, s') = read_plain s (n_of_int 1) in
-                (VB ((not (rerr s')) && int_of_n v = 1), s')
+              | XBase (RBits w) -> let (v, s') = read_plain s w in (XV (VN v), s')
+              | XBase (RBytes k) -> (* used as ReadSigned(k) in plain mode *)
+                let (z, s') = read_signed_plain s (n_of_int (int_of_nat k)) in (XV (VZ z), s')
+              | XBase RFlag -> let (b, s') = read_flag_plain s in (XV (VB b), s')
               | _ -> failwith "plain reader op") in
         let (_, tr) =
           L.fold_left (fun (s, tr) o ->
               let (v, s') = step s o in
-              let line = Printf.sprintf "%s/%d/%d/%d/%d" (rval_string v)
+              let line = Printf.sprintf "%s/%d/%d/%d/%d" (xrval_string v)
                   (if rerr s' then 1 else 0)
                   (int_of_n (nr_bytes_read s')) (int_of_z (nr_bits_read s'))
                   (int_of_z (nr_bits_read_in_current_byte s')) in
@@ -85,4 +114,26 @@ let () =
         let mt = match tr with [] -> "-" | _ -> S.concat "," (L.rev tr) in
         if mt = obs then Printf.printf "OK %s\n" id
         else Printf.printf "MISMATCH %s reader(%s) model_obs=%s\n" id mode mt
+      | ["F"; id; cap; ops; outhex; trace] ->
+        let ops = parse_list parse_fop ops in
+        let (s, tr) =
+          L.fold_left (fun (s, tr) o ->
+              let s' = fstep s o in
+              (s', Printf.sprintf "%d/%d" (int_of_n (foff s')) (if ferr s' then 1 else 0) :: tr))
+            (finit (n_of_int (int_of_string cap)), []) ops in
+        let mo = hex_of_bytes (fbytes s) in
+        let mt = match tr with [] -> "-" | _ -> S.concat "," (L.rev tr) in
+        if mo = outhex && mt = trace then Printf.printf "OK %s\n" id
+        else Printf.printf "MISMATCH %s fixedslicewriter model_out=%s model_trace=%s\n" id mo mt
+      | ["B"; id; cap; ops; outhex; trace] ->
+        let ops = parse_list parse_bop ops in
+        let (s, tr) =
+          L.fold_left (fun (s, tr) o ->
+              let s' = bstep s o in
+              (s', Printf.sprintf "%d/%d" (L.length (brev s')) (if berr s' then 1 else 0) :: tr))
+            (binit (n_of_int (int_of_string cap)), []) ops in
+        let mo = hex_of_bytes (bbytes s) in
+        let mt = match tr with [] -> "-" | _ -> S.concat "," (L.rev tr) in
+        if mo = outhex && mt = trace then Printf.printf "OK %s\n" id
+        else Printf.printf "MISMATCH %s bytewriter model_out=%s model_trace=%s\n" id mo mt
       | _ -> Printf.printf "BADLINE %s\n" line)
